@@ -143,8 +143,8 @@ impl Transport for Mock {
         }
     }
     /// the model's `syncOp`: full copy when the destination vanished, fresh inode at or above the
-    /// delta gate (temp file + rename) or when a single-named source meets a multiply-linked
-    /// destination (`break_unshared_hard_link`), otherwise a write through the existing inode
+    /// delta gate (temp file + rename) or when the destination name is multiply linked
+    /// (`break_unshared_hard_link`, 8b4f96e), otherwise a write through the existing inode
     async fn sync_file_with_delta(&self, _source: &Path, dest: &Path) -> SyResult<TransferResult> {
         let w = match self.by_dst.get(dest) { Some(w) => *w, None => return Self::unsupported("sync-path") };
         for _ in 0..self.cfg[w].y_copy { self.log("y-sync".into()); YieldOnce(false).await; }
@@ -155,7 +155,7 @@ impl Transport for Mock {
             None => { st.files.insert(dest.to_path_buf(), (w as u64, content)); }
             Some((ino, _)) => {
                 let shared = st.files.iter().any(|(p, f)| p != dest && f.0 == ino);
-                if self.cfg[w].large || (!self.cfg[w].linked && shared) {
+                if self.cfg[w].large || shared {
                     st.files.insert(dest.to_path_buf(), (w as u64, content));
                 } else {
                     for f in st.files.values_mut() { if f.0 == ino { f.1 = content; } }
@@ -424,7 +424,7 @@ fn check_schedule(rep: &mut Report, drv: &mut Driver, cfg: &[WCfg], sched: &[usi
         let files: HashMap<usize, (String, String)> = real.dst.split(',').filter(|s| *s != "-").filter_map(|e| {
             let (w, rest) = e.split_once('=')?; let (ino, c) = rest.split_once('/')?; Some((w.parse().ok()?, (ino.to_string(), c.to_string())))
         }).collect();
-        // with foreign links in the pre-run destination the current code is known to write through them
+        // foreign links in the pre-run destination: written through before 8b4f96e (recorded as fixed)
         let sig = if dst_ok(cfg) { "C13/link-structure-differs/mock" } else { "C13/update-writes-through-foreign-link" };
         let ok: Vec<usize> = real.recs.iter().filter(|r| r.out == "ok").map(|r| r.w).collect();
         let mut reported = false;
